@@ -36,9 +36,13 @@ if typing.TYPE_CHECKING:
 def get_ellipsis_string(encoding: str) -> str:
     """Get ellipsis character for given encoding."""
     try:
-        return "…".encode(encoding).decode(encoding)
+        encoded = "…".encode(encoding)
     except UnicodeEncodeError:
         return "..."
+    if calc_width(encoded, 0, len(encoded)) != 1:
+        # double-byte encodings: the encoded ellipsis character takes two screen columns
+        return "..."
+    return encoded.decode(encoding)
 
 
 @functools.lru_cache(maxsize=4)
@@ -210,7 +214,7 @@ class StandardTextLayout(TextLayout):
                     raise ValueError(f"Invalid padding for start column==0: {pad_left!r}")
                 if start_off != idx:
                     raise ValueError(f"Invalid start offset for  start column==0 and position={idx!r}: {start_off!r}")
-                screen_columns = width - 1 - pad_right
+                screen_columns = width - ellipsis_width - pad_right
 
             else:
                 trimmed = False
